@@ -180,7 +180,7 @@ func (r *c02Runner) block(in *BlockIn, descr []string) {
 						s.Auth = append(s.Auth, i)
 					}
 				}
-				for _, a := range c02SignedBy(stx) {
+				for _, a := range c02SignedBy(stx, r.rep.Chain) {
 					add(a)
 					if st, ok := before.Vals[a]; ok {
 						add(st) // validator operations charge their fee to the stake account
@@ -252,6 +252,16 @@ func c02Witness(name string, w *World) *History {
 		p := w.Poor[0]
 		s.block([][]byte{txWithdrawReward(ValSpec{Val: p, Stake: p}, oltAmt("-1"), s.memo())}, "withdraw validator reward -1 OLT by a poor non-validator")
 		s.block([][]byte{txWithdrawReward(w.Vals[0], oltAmt("-1"), s.memo())}, "withdraw validator reward -1 OLT by a validator's stake account")
+		s.empty(1)
+	case "olvm_foreign_from":
+		// an OLVM transaction whose payload names ANOTHER account as From (it would pay value + gas), signed by the attacker's key;
+		// and an honest one by the same key
+		s.empty(2)
+		att, vic := w.Eth[0], w.Eth[1]
+		forged := c17EthKey{att.Priv, vic.Addr}
+		to := u0.Addr
+		s.block([][]byte{txOLVM(forged, &to, 0, "5000000000000000000", 30000, nil), txOLVM(att, &to, 0, "1000000000", 30000, nil)},
+			"olvm transfer with a foreign From signed by the attacker", "olvm transfer")
 		s.empty(1)
 	case "two_finalized_in_one_block":
 		full := scenarioHistory("govupdate", w)
@@ -402,7 +412,7 @@ func c02Main(args []string) int {
 			}
 		}
 		world := [3]int{3, 5, 2}
-		for _, name := range []string{"proposal_fund_negative", "two_finalized_in_one_block", "withdraw_funds_negative", "withdraw_reward_negative"} {
+		for _, name := range []string{"proposal_fund_negative", "two_finalized_in_one_block", "withdraw_funds_negative", "withdraw_reward_negative", "olvm_foreign_from"} {
 			w := NewWorld(world[0], world[1], world[2])
 			c, p := c02RunHistory("witness_"+name, world, c02Witness(name, w))
 			cases = append(cases, c)
